@@ -169,7 +169,8 @@ func c07ConcSetup(e *c07Env, sc c07ConcScenario, px *Proxy) (solo [2]c07ConcView
 // c07ConcReplayOne re-executes one recorded schedule.
 func c07ConcReplayOne(c *Ctx, e *c07Env, rp c07ConcReplay) string {
 	vrt.Enabled = true
-	defer func() { vrt.Enabled = false }()
+	vrt.AllStatements = map[string]bool{"pkg/header": true, "pkg/middleware": true}
+	defer func() { vrt.Enabled = false; vrt.AllStatements = nil }()
 	for _, cfg := range c07ConcConfigs() {
 		if cfg.Name != rp.Scenario.Config {
 			continue
@@ -195,7 +196,8 @@ func c07ConcReplayOne(c *Ctx, e *c07Env, rp c07ConcReplay) string {
 
 func c07Concurrent(c *Ctx, e *c07Env) {
 	vrt.Enabled = true
-	defer func() { vrt.Enabled = false }()
+	vrt.AllStatements = map[string]bool{"pkg/header": true, "pkg/middleware": true}
+	defer func() { vrt.Enabled = false; vrt.AllStatements = nil }()
 	bound := 1
 	if !c.Quick() {
 		bound = 2
@@ -227,7 +229,15 @@ func c07Concurrent(c *Ctx, e *c07Env) {
 			c.Error("C07 concurrent %+v: %s", sc, serr)
 			continue
 		}
-		stats := explore.Run(explore.Config{MaxCost: bound, Deadline: c.Deadline, Shard: c.Shard, Shards: c.Shards, ShardDepth: 2}, func(x *explore.Exec, own bool) {
+		every := vrt.AllStatements
+		if len(every) > 0 && !concStatementLevelOK(func(x *explore.Exec) { body(x) }) {
+			vrt.AllStatements = nil
+			c.Inc("conc_scenarios_without_statement_level_scheduling")
+			if c.Shard == 0 {
+				c.Note("concurrent scenario %+v: statement paths differ between identical executions (map iteration order?): explored with access-based scheduling points only", sc)
+			}
+		}
+		stats := explore.Run(explore.Config{MaxCost: bound, Deadline: c.Deadline, Shard: c.Shard, Shards: c.Shards, ShardDepth: 2, TolerateDivergence: true, MaxDivergences: 16}, func(x *explore.Exec, own bool) {
 			out, v, err := body(x)
 			if !own {
 				return
@@ -265,6 +275,10 @@ func c07Concurrent(c *Ctx, e *c07Env) {
 			}
 		})
 		c.Add("states", int64(stats.Executions))
+		vrt.AllStatements = every
+		if stats.Divergences > 0 {
+			c.Unstable("concurrent scenario %+v: %d executions did not reproduce their replayed prefix", sc, stats.Divergences)
+		}
 		if !stats.Exhaustive {
 			c.Exhaustive = false
 			c.Note("concurrent part %+v: not exhaustive (level completed %d)", sc, stats.LevelCompleted)
